@@ -237,10 +237,10 @@ theorem c02_du_law (env : Env) (m : Mods) (disc : Nat) (os : List DUOpt) (v : V)
     obtain ⟨rfl, _, _⟩ := (buildDiscMap_some os dm).1 hb
     simp only [hw, Bool.true_and]
     unfold parseDU
-    by_cases hn : (v.isNil && (m.nilable || m.optional)) = true
-    · have hn' : (v.isNil && (m.optional || m.nilable)) = true := by rw [Bool.or_comm]; exact hn
+    by_cases hn : (duNil v && (m.nilable || m.optional)) = true
+    · have hn' : (duNil v && (m.optional || m.nilable)) = true := by rw [Bool.or_comm]; exact hn
       simp [hn, hn', Res.isOk]
-    · have hn' : (v.isNil && (m.optional || m.nilable)) = false := by
+    · have hn' : (duNil v && (m.optional || m.nilable)) = false := by
         rw [Bool.or_comm]; simpa using hn
       simp only [hn, Bool.false_eq_true, ↓reduceIte, hn', Bool.false_or]
       split
